@@ -164,8 +164,8 @@ static const Var* resolveConst(const Path& p, std::string& err, SrcRef* ref = NU
 	for (size_t n = 0; n < p.steps.size(); n++) {
 		const Step& s = p.steps[n];
 		if (!s.isKey) {
-			if (cur->is(Var::ARRAY) && s.i >= cur->length()) { err = "nopath"; return NULL; }
-			if (ref) { ref->block = cur->is(Var::ARRAY) ? info(*cur).id : NULL; ref->isKey = false; ref->idx = s.i; }
+			// an index beyond the length: the const operator[] gives the static none (8dbc483)
+			if (ref) { ref->block = (cur->is(Var::ARRAY) && s.i < cur->length()) ? info(*cur).id : NULL; ref->isKey = false; ref->idx = s.i; }
 			cur = &(*cur)[s.i];
 		}
 		else {
@@ -326,11 +326,19 @@ static std::string step(const Toks& t0)
 		v = *v + off;
 		return "ok";
 	}
-	if (op == "nest" && n == 3) {
-		// harness-only (deep-tree checks of the plugin's extra()): wrap root k into n more arrays: Var w; w << v; v = w;
+	if ((op == "nest" || op == "nest2" || op == "nesto" || op == "nestx") && n == 3) {
+		// harness-only (deep-tree checks of the plugin's extra()): wrap root k into n more levels
 		int k = (int)num(t[1]), m = (int)num(t[2]);
 		if (k < 0 || k >= NS) return "bad-op";
-		for (int i = 0; i < m; i++) { Var w; w << *slot[k]; *slot[k] = w; }
+		Var& v = *slot[k];
+		for (int i = 0; i < m; i++) {
+			Var w;
+			if (op == "nest") w << v;                       // one handle per level
+			else if (op == "nest2") w << v << v;            // the child block referenced twice inside the tree
+			else if (op == "nesto") { w["a"] = v; w["b"] = 5; w["c"] = v; }
+			else { w << v << 3; Var y; y << w << v << w; w = y; }  // shared at two levels
+			v = w;
+		}
 		return "ok";
 	}
 	if (op == "deep" && n == 3) {
